@@ -24,11 +24,13 @@ PLAN = {
     "C01": {"quick": [J("udp_store", 40000)], "thorough": [J("udp_store", 3000000)]},
     "C02": {"quick": [J("udp_store", 12000), J("http_store", 30000), J("ws_store", 60000)],
             "thorough": [J("udp_store", 500000), J("http_store", 1500000), J("ws_store", 2000000)]},
+    "C05": {"quick": [J("validator", 400000)], "thorough": [J("validator", 10000000)]},
     "C07": {"quick": [J("http_store", 60000)], "thorough": [J("http_store", 3000000)]},
     "C08": {"quick": [J("ws_store", 150000)], "thorough": [J("ws_store", 3000000)]},
     "C09": {"quick": [J("ws_store", 150000)], "thorough": [J("ws_store", 3000000)]},
     "C10": {"quick": [J("udp_store", 25000), J("http_store", 40000), J("ws_store", 80000)],
             "thorough": [J("udp_store", 1000000), J("http_store", 1000000), J("ws_store", 1000000)]},
+    "C11": {"quick": [J("accesslist", 8000)], "thorough": [J("accesslist", 200000)]},
     "C20": {"quick": [J("udp_store", 30000)], "thorough": [J("udp_store", 1000000)]},
 }
 
@@ -51,6 +53,14 @@ PROPS = {
             "assumptions": ["reference tracker of DESIGN.md section 4 is the specification", "sampling, not enumeration"]},
     "C02": {"level": "exploration", "rule": _STORE_RULE, "expect_probes": ["swarm-exceeds-limit", "numwant-nonpositive"],
             "assumptions": ["UDP/WS storage RNG is SmallRng seeded per run (offsets sampled, not enumerated)"]},
+    "C05": {"level": "exploration",
+            "rule": ("one run = one generated sequence of clock advances, per-worker clock refreshes, id issues, honest checks (same / other "
+                     "address, before / at / after expiry, stale or advanced worker clocks) and forgeries (1-bit, 2-bit, arbitrary, other "
+                     "tracker instance) against the real ConnectionValidator clones; evaluations = issue/check/forgery calls judged; "
+                     "non-trivial = at least one acceptance, one expiry rejection and one wrong-address or future-time rejection; "
+                     "distinct = distinct sequences of (outcome, same-ip, age-ok, future-ok, at-boundary, forgery kind)"),
+            "expect_probes": ["accepted-in-last-valid-second", "rejected-exactly-at-expiry", "rejected-future-issue-time", "accepted-via-ipv4-mapped-form", "forgery-one-bit", "forgery-other-instance"],
+            "assumptions": ["a forged id accepted by chance (2^-32) is discarded only if it is rejected under a second key", "tracker uptime below 2^32 seconds"]},
     "C07": {"level": "exploration", "rule": _STORE_RULE,
             "expect_probes": ["inline-to-heap", "heap-to-inline-by-stop", "scrape-repeated-hash", "scrape-longer-than-limit"],
             "assumptions": ["reference tracker of DESIGN.md section 4 is the specification", "sampling, not enumeration"]},
@@ -63,6 +73,15 @@ PROPS = {
     "C10": {"level": "exploration", "rule": _STORE_RULE,
             "expect_probes": ["clean-exactly-at-deadline", "clean-one-second-before-deadline", "expiry-in-heap-map"],
             "assumptions": ["monotonic clock without jumps", "tracker uptime below u32::MAX seconds"]},
+    "C11": {"level": "fault_enumeration",
+            "rule": ("one run = one generated sequence of list-file reloads (contents: upper/lower-case hex, blank lines, surrounding whitespace, "
+                     "CRLF; faults: missing file, open denied, read error after b bytes, short reads, malformed lines of 6 kinds) and cleaning "
+                     "passes of all three storages; in addition the last good file of every run is reloaded with each malformed-line kind at "
+                     "EVERY line position and with a read error after EVERY byte count (systematic enumeration); evaluations = reloads, "
+                     "allow/deny probes and storage cleans judged; non-trivial = at least one successful and one failed reload; distinct = "
+                     "distinct sequences of (reload outcome, line count, fault present, permitted-torrent count)"),
+            "expect_probes": ["reload-ok", "reload-failed-bad-line", "reload-failed-missing-file", "reload-failed-read-error", "enumerated-bad-line-position", "enumerated-read-error-position", "clean-removed-forbidden-torrents"],
+            "assumptions": ["list files are real files in a per-process scratch directory read through the file seam", "the announce gate itself is exercised in the SYS harnesses"]},
     "C20": {"level": "fault_enumeration", "rule": _STORE_RULE, "expect_probes": ["peer-id-change"],
             "assumptions": ["process-kill crash model (no power-loss reordering)"]},
 }
@@ -81,6 +100,9 @@ TEXT = {
     "C02": {"engine": "sim", "design_ref": "6.C02", "technique": _SIM + " (peer-list clauses checked on every announce reply)",
             "level_text": "Seeded exploration over swarm sizes, requested counts, configured maxima, requester positions and RNG seeds; every reply is checked against the C02 clauses.",
             "level_note": "UDP and WS storage take a concrete SmallRng, so offsets are sampled via seeds rather than enumerated."},
+    "C05": {"engine": "sim", "design_ref": "6.C05", "technique": _SIM + " (simulated whole-second clock per worker, issue x check time grid, forgeries)",
+            "level_text": "Seeded exploration of the real ConnectionValidator: several clones with independently sampled clocks, ages 0..u32::MAX, checks placed one second before / at / after expiry, wrong and IPv4-mapped addresses, four forgery kinds.",
+            "level_note": "MAC guessing chance 2^-32 per forged id is handled by re-checking under a second key."},
     "C07": {"engine": "sim", "design_ref": "6.C07", "technique": _SIM + " (refinement over generated histories, stepped clock, adversarial RNG)",
             "level_text": "Seeded exploration: generated histories executed against the real aquatic_http storage and refined against the reference tracker, including scrape de-duplication / truncation and torrent-entry removal.",
             "level_note": "Trusted: reference tracker, stepped clock seam, torrent-count accessor hook."},
@@ -93,6 +115,9 @@ TEXT = {
     "C10": {"engine": "sim", "design_ref": "6.C10", "technique": _SIM + " (simulated clock; cleans placed at deadline-1/0/+1)",
             "level_text": "Seeded exploration with the real deadline computation under a simulated clock; cleaning passes are placed one second before, at and after stored deadlines.",
             "level_note": "Monotonic clock; uptime below u32::MAX seconds."},
+    "C11": {"engine": "sim", "design_ref": "6.C11", "technique": "seeded deterministic simulation with systematic reload-fault enumeration",
+            "level_text": "Fault enumeration: every reload-fault kind (missing, open denied, read error at every byte, malformed line of 6 kinds at every position, short reads) against the real reload path and the three storages' cleaning passes.",
+            "level_note": "Announce gate covered by SYS harnesses; list files are real scratch files read through the seam."},
     "C20": {"engine": "sim", "design_ref": "6.C20", "technique": "seeded deterministic simulation with crash-point and I/O-fault enumeration",
             "level_text": "Fault enumeration: every export of every generated history is crashed after each file step and re-run with each I/O error kind; tallies and totals refined against the reference tracker.",
             "level_note": "Process-kill crash model; rename is the kernel's (real files in a scratch directory)."},
